@@ -59,6 +59,7 @@ class Impl:
         self.next_did = 0
         self.next_tok = 0
         self.deferred_answers = {}
+        self.pending_socks = {}
         self.reactor = MemoryReactorClock()
         self.st = SimTor()
         if case.get('consensus'):
@@ -252,10 +253,20 @@ class Impl:
                 d = self.state.set_attacher(None if op[1] is None else self.attacher(op[1]), self.reactor)
                 if d is not None:
                     d.addErrback(lambda f: None)
-            elif k == 'via':
+            elif k in ('via', 'viap'):
                 from twisted.internet.protocol import Protocol, Factory
-                ep = self.cobjs[op[1]].stream_via(self.reactor, 'example.com', 80, socks_endpoint=FakeSocksEndpoint(op[2], op[3]))
+                fake = FakeSocksEndpoint(op[2], op[3], pending=(k == 'viap'))
+                ep = self.cobjs[op[1]].stream_via(self.reactor, 'example.com', 80, socks_endpoint=fake)
                 self.watch(ep.connect(Factory.forProtocol(Protocol)))
+                if k == 'viap':
+                    self.pending_socks[(op[2], op[3])] = fake
+            elif k == 'vialost':
+                # Tor answers the SOCKS request of that connection with a failure (before any stream of it was reported)
+                fake = self.pending_socks.pop((op[1], op[2]))
+                fake.proto.dataReceived(b'\x05\x01\x00\x01\x00\x00\x00\x00\x00\x00')
+                # the registration the connection made stays behind with a Deferred nobody holds: it is numbered like any other
+                self.log.append(['d', self.next_did])
+                self.next_did += 1
             elif k == 'ans':
                 d = self.deferred_answers.pop(op[1], None)
                 if d is not None:
@@ -308,8 +319,10 @@ class Impl:
 class FakeSocksEndpoint:
     """Tor's SOCKS port: the connection is made from the given local address and the request succeeds at once"""
 
-    def __init__(self, host, port):
+    def __init__(self, host, port, pending=False):
         self.addr = (host, port)
+        self.pending = pending
+        self.proto = None
 
     def connect(self, factory):
         from twisted.internet import defer
@@ -319,7 +332,9 @@ class FakeSocksEndpoint:
         tr = proto_helpers.StringTransport(hostAddress=IPv4Address('TCP', self.addr[0], self.addr[1]))
         proto.makeConnection(tr)
         proto.dataReceived(b'\x05\x00')
-        proto.dataReceived(b'\x05\x00\x00\x01\x01\x02\x03\x04\x00\x50')
+        self.proto = proto
+        if not self.pending:
+            proto.dataReceived(b'\x05\x00\x00\x01\x01\x02\x03\x04\x00\x50')
         return defer.succeed(proto)
 
 
@@ -437,8 +452,10 @@ def op_line(op):
         return 'att %s' % ('-' if op[1] is None else op[1])
     if k == 'ans':
         return 'ans %d %s' % (op[1], 'x' if op[2].startswith('z') else op[2])
-    if k == 'via':
+    if k in ('via', 'viap'):
         return 'via %d %s %d' % (op[1], hexs(op[2]), op[3])
+    if k == 'vialost':
+        return 'vialost %s %d' % (hexs(op[1]), op[2])
     raise ValueError(op)
 
 
@@ -545,6 +562,14 @@ def parse_model(outs, marks, case):
         of += a
         cf += b
     trace.append({'outs': of, 'cmds': cf, 'dump': parse_dump(outs[-1])})
+    # the Deferred left behind in the registry by a failed via-circuit connection is held by nobody: its completion cannot be observed
+    ghosts = set()
+    for i, op in enumerate(case['ops']):
+        if op[0] == 'vialost' and i + 1 < len(trace):
+            ghosts |= {o[1] for o in trace[i + 1]['outs'] if o[0] == 'd'}
+    if ghosts:
+        for t in trace:
+            t['outs'] = [o for o in t['outs'] if not (o[0] == 'f' and o[1] in ghosts)]
     return trace
 
 
